@@ -60,6 +60,7 @@ ASSUMPTIONS = [
     "edits made directly on the children of a macro are not `its inputs` (C09's subject) and are not attempted",
 ]
 
+CASE_TIMEOUT = 170  # real pools on a loaded machine; a job that never comes back is reported after 100 s
 SNAP_EXES = ("iv", "xv")
 BYVALUE = ("iv", "xv", "rp", "rc", "xrc")
 REAL = ("rt", "rp", "rc", "xrt", "xrc")
@@ -814,7 +815,7 @@ def _run_tree(case):
                 if real:
                     open(gate_path, "w").close()
                     t0 = time.time()
-                    while (t.running or not state["future"].done()) and time.time() - t0 < 200:
+                    while (t.running or not state["future"].done()) and time.time() - t0 < 100:
                         time.sleep(0.002)
                     if t.running:
                         state["out"] = False
@@ -1311,7 +1312,8 @@ def oracle(case, r):
     if r["callback_errors"] and not case["fails"]:
         add(_fail("callback-exception", f"{r['callback_errors'][:2]}", byvalue_comp=has_bv_comp))
     if r.get("notes"):
-        add(_fail("nothing-running", f"jobs outstanding after the root returned: {r['notes']}", where="late"))
+        add(_fail("nothing-running", f"jobs outstanding after the root returned: {r['notes']}", where="late",
+                  after_merge=_poke_after_merge(case)))
     return fails
 
 
